@@ -488,7 +488,7 @@ func (p *Program) encodeCallPreOnly(c *Contract) *UnitResult {
 	var keep []*Obl
 	for _, o := range u.Obls {
 		// (loop invariants are kept: a checked postcondition may rest on them)
-		ok := strings.Contains(o.ID, "#pre[call.") || strings.Contains(o.ID, "#cover[requires]") || strings.Contains(o.ID, "#inv[")
+		ok := strings.Contains(o.ID, "#pre[call.") || strings.Contains(o.ID, "#pre[dyn.") || strings.Contains(o.ID, "#guard[store.") || strings.Contains(o.ID, "#cover[requires]") || strings.Contains(o.ID, "#inv[")
 		for _, l := range c.TrustedKeep {
 			if o.Label == l {
 				ok = true
